@@ -73,6 +73,7 @@ func constIndexTables(fn *ssa.Function) map[string]byte {
 }
 
 func runC03(c *core.Ctx, r *core.Reporter) {
+	c03fname(c, r)
 	m := buildReaderModel(c)
 	if m == nil || m.initial == "" {
 		r.Undecided("C03.sym", "reader model", "-", "the reader's dispatch switch or mode tables were not recognised")
@@ -792,4 +793,21 @@ func replaceAllMarkers(c *core.Ctx, fnObj *types.Func) []string {
 		return true
 	})
 	return out
+}
+
+// c03fname: a function call object prints as "(" + Function.Name + arguments + ")". That text reads back as
+// the same call only if the name the creator gives the object is a name the function is registered under.
+// For every registration whose creator builds the object with a constant Name and whose FuncDoc has a constant
+// Name, the two are equal (ignoring case). The `function` special form was built with Name "name" (its
+// parameter): (print (read-from-string "#'car")) printed (name car).
+func c03fname(c *core.Ctx, r *core.Reporter) {
+	const rule = "C03.fname"
+	r.Rule(rule, "for every registration, the constant Name of the slip.Function object the creator builds equals the registered (documented) name: a call object prints under a name that reads back as the same function", 700)
+	for _, b := range c.Registry() {
+		if !b.CreatorNameSet || !b.DocLit || b.Name == "" {
+			continue
+		}
+		ok := strings.EqualFold(b.CreatorName, b.Name)
+		r.Decide(ok, rule, b.Key(), c.Pos(b.Pos), fmt.Sprintf("creator builds the call object with Name %q; registered as %q", b.CreatorName, b.Name))
+	}
 }
